@@ -760,6 +760,17 @@ def run(tier):
               'protocol methods store nothing on the object, the class or '
               'module-level containers except option values and constants',
               'proposals are generated from what an earlier input looked like: candidates that exist for the current input are never offered, and the final sweep declares a fixed point')
+    # the tree in memory is the tree a reader gets from the written file:
+    # a leaf whose text is several tokens hides structure from every mutator
+    from . import c15 as _c15
+    from ..shape import Summaries as _Summ
+    sub15 = Check('C15', 'other', tier, [], [])
+    chk.guard(_c15.rule_r3, sub15, prog, _c15.Abs(prog, _Summ(prog)))
+    chk.adopt('C02.R15', 'every leaf a mutator builds is a single token, so '
+              'the final sweep visits the same nodes a rerun on the written '
+              'output visits: text of several tokens inside one leaf is '
+              'opaque to all mutators now and is taken apart by the rerun '
+              '(shared with C15.R3)', sub15)
     extra = None
     if tier == 'thorough':
         from .. import selftest
